@@ -32,6 +32,8 @@ class Inconclusive(Exception):
 
 class Src:
     _cache = {}
+    # negative controls: rel -> list of (old, new) textual replacements applied to an in-memory copy
+    overrides = {}
 
     def __init__(self, rel):
         self.rel = rel
@@ -40,7 +42,20 @@ class Src:
             self.bytes = open(self.path, "rb").read()
         except OSError as e:
             raise Inconclusive(f"cannot read {self.path}: {e}")
-        p = subprocess.run([VXSPAN, self.path], capture_output=True)
+        parse_path = self.path
+        if rel in Src.overrides:
+            t = self.bytes.decode()
+            for old, new in Src.overrides[rel]:
+                if t.count(old) != 1:
+                    raise Inconclusive(f"control: pattern occurs {t.count(old)} times in {rel}: {old[:50]!r}")
+                t = t.replace(old, new)
+            self.bytes = t.encode()
+            parse_path = os.path.join(BUILD, "mut", rel.replace("/", "__"))
+            os.makedirs(os.path.dirname(parse_path), exist_ok=True)
+            open(parse_path, "wb").write(self.bytes)
+        if not os.path.exists(VXSPAN):
+            raise Inconclusive(f"{VXSPAN} not built (run MANIFEST.setup_cmd)")
+        p = subprocess.run([VXSPAN, parse_path], capture_output=True)
         if p.returncode != 0:
             raise Inconclusive(f"vxspan failed on {rel}: {p.stderr.decode(errors='replace')[:300]}")
         self.tree = json.loads(p.stdout)
@@ -391,13 +406,18 @@ class Unit:
 
 
 class Gen:
-    def __init__(self, unit, prop):
+    def __init__(self, unit, prop, vacuity=False):
         self.unit, self.prop = unit, prop
+        self.vacuity = vacuity
+        self.vac = False  # currently emitting the `__vac` copy of a function
         self.segs = []  # (text, origin)
         self.rewrites = {}
         self.functions = []  # (path, rel, sha256, lines)
         self.clauses = {}  # id -> Clause (active ones)
+        self.sites = {}  # id -> number of places the clause was spliced
         self.dropped = []
+        self.fn_segs = []
+        self.fn_ranges = []  # (byte_start, byte_end, item)
 
     def fired(self, rule):
         self.rewrites[rule] = self.rewrites.get(rule, 0) + 1
@@ -407,10 +427,8 @@ class Gen:
             self.segs.append((text, origin))
 
     def reg(self, cl):
-        if cl.id in self.clauses and self.clauses[cl.id] is not cl:
-            # same id used at several sites (e.g. @around): fine
-            pass
         self.clauses[cl.id] = cl
+        self.sites[cl.id] = self.sites.get(cl.id, 0) + 1
 
     def clause_text(self, cl, sep=","):
         self.reg(cl)
@@ -449,6 +467,13 @@ class Gen:
 
     # ---- functions --------------------------------------------------------------------------
     def emit_fn(self, it):
+        i0 = len(self.segs)
+        try:
+            self._emit_fn(it)
+        finally:
+            self.fn_segs.append((i0, len(self.segs), it))
+
+    def _emit_fn(self, it):
         src = Src.get(it["rel"])
         impl, fn = find_fn(src, it["name"])
         ed = Edits(src, fn["s"], fn["e"])
@@ -481,10 +506,13 @@ class Gen:
         # -- contract
         spec = ""
         active = [c for c in it["clauses"] if c.active(self.prop)]
-        for kind in ("requires", "ensures", "decreases"):
-            cs = [c for c in active if c.kind == kind]
-            if cs:
-                spec += f"\n    {kind}\n"
+        if self.vac:
+            # vacuity control: a renamed copy of the function with `ensures false` added. It calls the
+            # ORIGINAL callees (whose contracts are unchanged), so it verifies only if the function's own
+            # preconditions / assumed specs are contradictory or no path returns.
+            active = active + [Clause("ensures", "__vacuity." + it["name"], self.unit.props, [], "false", "vacuity")]
+            m = re.search(rb"\bfn\s+" + fn["a"]["ident"].encode() + rb"\b", src.bytes[sig["s"]:sig["e"]])
+            ed.insert(sig["s"] + m.end(), "__vac", ("glue",))
         # build with per-clause origins
         pieces = []
         for kind in ("requires", "ensures", "decreases"):
@@ -522,8 +550,9 @@ class Gen:
         else:
             self.emit("\n", ("glue",))
         # generated closure fns
-        for text, origin in getattr(self, "_pending", []):
-            self.emit(text, origin)
+        if not self.vac:
+            for text, origin in getattr(self, "_pending", []):
+                self.emit(text, origin)
         self._pending = []
 
     # ---- body rewriting ---------------------------------------------------------------------
@@ -912,6 +941,12 @@ class Gen:
                 self.emit_type(it)
             elif it["kind"] == "fn":
                 self.emit_fn(it)
+                if self.vacuity and not it["external"]:
+                    self.vac = True
+                    try:
+                        self.emit_fn(it)
+                    finally:
+                        self.vac = False
         self.emit("\n} // verus!\nfn main() {}\n", ("glue",))
         text = "".join(t for t, _ in self.segs)
         # offset table
@@ -921,6 +956,9 @@ class Gen:
             b = len(t.encode())
             table.append((pos, pos + b, o))
             pos += b
+        for i0, i1, it in self.fn_segs:
+            if i0 < i1:
+                self.fn_ranges.append((table[i0][0], table[i1 - 1][1], it))
         return text, table
 
 
@@ -1031,6 +1069,19 @@ def classify(r, table, gen):
                 break
         entry["kind"] = "clause" if cl else "safety"
         entry["clause"] = cl
+        if cl is None:
+            prim0 = [sp for sp, o in origins if sp.get("is_primary")]
+            off = prim0[0]["byte_start"] if prim0 else None
+            entry["fn"] = None
+            for a, b, it in gen.fn_ranges:
+                if off is not None and a <= off < b:
+                    entry["fn"] = it["name"]
+                    if it["safety"] is not None:
+                        entry["clause"] = it["safety"].id
+                    else:
+                        entry["clause"] = it["name"] + ".safety"
+            if entry["clause"] is None:
+                entry["kind"] = "lemma"  # failure inside a lemma/prelude file: the machinery itself
         prim = [(sp, o) for sp, o in origins if sp.get("is_primary")]
         entry["primary"] = list(prim[0][1]) if prim else None
         entry["byte_start"] = prim[0][0]["byte_start"] if prim else None
